@@ -41,7 +41,15 @@ Compounds(In, L) ==
   \cup { << Comp("while", <<a>>), Ret(v) >> : a \in in, v \in L }
   \cup { << Comp("with", <<a>>) >> : a \in in }
   \cup { << Comp("match", <<a, b>>) >> : a \in in, b \in in }
+(* the remaining clauses of compound statements that can hold a return: try/except/else, try/finally, for/else, while/else *)
+ElseClauses(L) ==
+  LET in == B0(L) IN
+     { << Comp("tryelse", <<a, b, c>>) >> : a \in in, b \in in, c \in in }
+  \cup { << Comp("tryfinally", <<a, b>>) >> : a \in in, b \in in }
+  \cup { << Comp("forelse", <<a, b>>) >> : a \in in, b \in in }
+  \cup { << Comp("whileelse", <<a, b>>) >> : a \in in, b \in in }
 Conds(L) == { << Comp("cond", << <<Ret(a)>>, <<Ret(b)>> >>) >> : a \in L, b \in L }
+            \cup { << Comp("cond3", << <<Ret(a)>>, <<Ret(b)>>, <<Ret(c)>> >>) >> : a \in L, b \in L, c \in L \cap {1, 3, 5} }   \* x if c else (y if d else z)
 Elifs(L) == { << Comp("ifelif", << <<Ret(a)>>, <<Ret(b)>>, <<Ret(c)>> >>) >> : a \in L, b \in L, c \in L }
 
 Bodies(tier) ==
@@ -49,6 +57,7 @@ Bodies(tier) ==
       small == {1, 3, 5, 6, 7, 9}
       tiny == {1, 5, 6}
   IN B0(all) \cup Compounds(B0(all), small) \cup Conds(all) \cup Elifs(small)
+     \cup ElseClauses(small)
      \cup { <<>> }                                                     \* no return statement at all
      \cup Compounds(Compounds(B0(tiny), {2}) \cup Conds(tiny), {7})    \* depth 2
      \cup (IF tier = "quick" THEN {} ELSE Compounds(Compounds(B0(small), small), small) \cup Elifs(all))
